@@ -1156,8 +1156,62 @@ def shrink_case(case, c):
     return {**case, "atoms": atoms, "grammar": grammar_of(kind, [tuple(a) for a in atoms])}
 
 
+# ---------------------------------------------------------------- ^ literals where the optimizer rewrites around them
+
+CI_CONTEXTS = [
+    # (name, grammar with {L} = the literal's text, inputs built from a case variant V of the literal, expected verdict)
+    ("skip terminator", 'r = @{{ (!^"{L}" ~ ANY)* ~ ^"{L}" ~ EOI }}', ["x1{V}", "{V}", "q7 {V}"]),
+    ("skip terminator in a choice", 'r = @{{ (!(^"{L}" | ";") ~ ANY)* ~ (^"{L}" | ";") ~ EOI }}', ["x{V}", "{V}"]),
+    ("skip terminator through a rule", 'r = @{{ (!t ~ ANY)* ~ t ~ EOI }}\nt = {{ ^"{L}" }}', ["x{V}", "{V}"]),
+    ("squashed choice", 'r = {{ (^"{L}" | "#" | \'0\'..\'1\')+ ~ EOI }}', ["{V}", "#{V}0", "{V}{V}"]),
+    ("inlined silent rule", 'r = {{ k ~ "!" ~ EOI }}\nk = _{{ ^"{L}" }}', ["{V}!"]),
+    ("fused WHITESPACE", 'WHITESPACE = _{{ ^"{L}" | " " }}\nr = {{ "0" ~ "1" ~ EOI }}', ["0{V}1", "0 {V} 1"]),
+]
+
+
+def ci_context_failures() -> list[dict]:
+    """every ASCII case variant of a multi-character ^ literal must be accepted, in all four modes, also where an optimizer
+    pass rewrites the expression the literal sits in (skip terminators, squashed choices, inlined rules, the fused SKIP rule)"""
+    import itertools
+
+    from pest import Parser
+    import pyside as PS
+    out = []
+    for lit in ("end", "Ab", "x9z"):
+        variants = sorted({"".join(c) for c in itertools.product(*[(ch.lower(), ch.upper()) for ch in lit])})
+        for name, gt, ins in CI_CONTEXTS:
+            g = gt.format(L=lit)
+            try:
+                p0, p1 = Parser.from_grammar(g, optimizer=None), Parser.from_grammar(g)
+                modes = {"interp": p0.parse, "opt": p1.parse, "gen": PS.load_generated(p0.generate()).parse,
+                         "optgen": PS.load_generated(p1.generate()).parse}
+            except Exception as e:  # noqa: BLE001
+                out.append({"context": name, "grammar": g, "mode": "load", "input": "", "what": f"{type(e).__name__} while building the modes"})
+                continue
+            for v in variants:
+                for it in ins:
+                    text = it.format(V=v)
+                    for m, parse in modes.items():
+                        try:
+                            parse("r", text)
+                            ok = True
+                        except Exception:  # noqa: BLE001
+                            ok = False
+                        if not ok:
+                            out.append({"context": name, "grammar": g, "mode": m, "input": text,
+                                        "what": f"^\"{lit}\" ({name}): the ASCII case variant {v!r} is not accepted"})
+    return out
+
+
 def replay(out: Outcome, payload: dict) -> None:
     use_repo()
+    if payload.get("kind_of_case") == "ci-context":
+        out.coverage = {"explanation": "replay of the ^ literal context cases", "evaluations": 1, "distinct_nontrivial": 2}
+        for f in ci_context_failures():
+            if f["grammar"] == payload.get("grammar") and f["mode"] == payload.get("mode") and f["input"] == payload.get("input"):
+                out.violation(payload)
+                return
+        return
     out.coverage = {"explanation": "replay of one (grammar, mode, input) case", "evaluations": 1, "distinct_nontrivial": 2,
                     "samples": [{k: payload.get(k) for k in ("grammar", "mode", "input", "expected")}]}
     if payload.get("kind_of_case") == "escape":
@@ -1359,6 +1413,11 @@ def run(out: Outcome) -> None:  # noqa: PLR0912, PLR0915
                        "input_repr": None if x.get("input") is None else repr("".join(map(chr, x["input"]))),
                        "expected": exp2, "observed": obs2, "reference_mode": x.get("reference_mode"), "what": x["what"],
                        "shrunk_from": c["grammar"], "seed": seed(), "command": "./check C12 --replay <this file>"})
+    ci_ctx = ci_context_failures()
+    for f in ci_ctx[:2]:
+        out.violation({"kind_of_case": "ci-context", **f, "rule": "r", "expected": "accepted in every mode", "observed": "rejected",
+                       "seed": seed(), "command": "./check C12 --replay <this file>"})
+        n_conc += 1
     seen_cls = set()
     for x in class_concrete:
         if (x["class"], x["code_point"]) in seen_cls or len(seen_cls) >= 2:
